@@ -85,25 +85,38 @@ def shifted_location(loc: dict, codon_start: int) -> dict:
 
 
 def build_sequence(spec: dict) -> str:
-    """ background from the seed; the coding bases are then written codon by codon in transcript order """
+    """ background from the seed; the coding bases are then written codon by codon in transcript order.
+        Where exons overlap (programmed frameshift) a base read twice keeps its first value and the
+        later codon is chosen to agree with it. """
     length = spec["L"]
     rng = _Lcg(spec["seed"])
     seq = ["ACGT"[rng.next(4)] for _ in range(length)]
     order = transcript(spec["loc"])[spec["codon_start"] - 1:]
     codons = len(order) // 3
     planted = set(spec.get("tta") or [])
+    reverse = spec["loc"]["strand"] == -1
+    fixed: dict = {}
     for index in range(codons):
+        positions = order[3 * index:3 * index + 3]
         if index == codons - 1 and spec.get("stop"):
-            codon = STOPS[rng.next(3)]
+            pick = rng.next(3)
+            candidates = STOPS[pick:] + STOPS[:pick]
         elif index == 0:
-            codon = spec.get("start", "ATG")
-        elif index in planted:
-            codon = "TTA"
+            candidates = (spec.get("start", "ATG"),)
         else:
-            codon = SENSE[rng.next(len(SENSE))]
-        for offset, base in enumerate(codon):
-            pos = order[3 * index + offset]
-            seq[pos] = base if spec["loc"]["strand"] != -1 else COMPLEMENT[base]
+            pick = rng.next(len(SENSE))
+            candidates = SENSE[pick:] + SENSE[:pick]
+            if index in planted:
+                candidates = ("TTA",) + candidates
+        for codon in candidates:
+            trial = dict(fixed)
+            if all(trial.setdefault(pos, base) == base for pos, base in zip(positions, codon)):
+                fixed = trial
+                break
+        else:
+            raise AssertionError("harness: no codon fits the bases shared with the previous exon")
+    for pos, base in fixed.items():
+        seq[pos] = COMPLEMENT[base] if reverse else base
     return "".join(seq)
 
 
@@ -163,6 +176,7 @@ class Case:
         # the oracle's view of the gene
         self.order = transcript(self.loc)[self.codon_start - 1:]
         self.gene_bases = frozenset(self.order)
+        self.overlap = frozenset(pos for pos in self.gene_bases if self.order.count(pos) > 1)
         extracted = bio_location(self.loc).extract(self.seq)[self.codon_start - 1:]
         mine = "".join(self.sequence[p] if self.strand != -1 else COMPLEMENT[self.sequence[p]] for p in self.order)
         assert str(extracted) == mine, "harness: transcript() disagrees with Biopython's extract()"
@@ -301,6 +315,24 @@ def explained_by_stop_codon(case: Case, start: int, end: int, code: tuple, failu
     return None
 
 
+def explained_by_overlap(case: Case, start: int, end: int, failure: dict) -> bool:
+    """ the known defect for exons that overlap by 1-2 bases (programmed frameshift): a range that begins
+        or ends on a base of the overlap gets a location of the wrong length, because the mapping asks
+        'which exon holds this coordinate' and two do """
+    if not case.overlap:
+        return False
+    want = case.expected(start, end)
+    if not (want[0] in case.overlap or want[-1] in case.overlap):
+        return False
+    if failure["clause"] == "exception":
+        # the other face (seen once the mapping itself is repaired): the right location for such a range
+        # has two parts with the same end, which Feature() refuses, so the domain cannot be created
+        detail = failure["detail"]
+        return (detail["exception"] == "ValueError" and "overlapping exons" in detail["message"]
+                and detail["where"].endswith("feature.py:__init__"))
+    return failure["clause"] == "length"
+
+
 def run_ranges(case: Case, ranges: list, produce, label: str, code_range=None) -> dict:
     """ produce(s, e) -> (location, claimed translation or None). Collects failures over all ranges and
         raises: the first failure no known defect explains, else (if any) the known defect's clause.
@@ -322,6 +354,8 @@ def run_ranges(case: Case, ranges: list, produce, label: str, code_range=None) -
         used = code_range(start, end) if code_range else (start, end)
         if explained_by_coordinate_order(case, used[0], used[1], failure):
             failure["explained"] = "span_coordinate_order"
+        elif explained_by_overlap(case, used[0], used[1], failure):
+            failure["explained"] = "overlap_boundary"
         elif code_range:
             failure["explained"] = explained_by_stop_codon(case, start, end, used, failure)
         else:
@@ -374,6 +408,8 @@ def classes_of(case: Case) -> list:
               f"{kind}_strand_{case.strand}"]
     if spec.get("partial"):
         labels.append(f"partial_{spec['partial']}")
+    if case.overlap:
+        labels.append(f"exons_overlap_by_{len(case.overlap)}")
     if on:
         labels.append("border_on_codon")
     if mid:
@@ -416,7 +452,8 @@ def check_sub(spec: dict) -> dict:
                 detail = _exc_detail(err)
                 detail["range"] = [start, end]
                 raise Violation("convert_exception", detail) from err
-            expect = (min(want), max(want) + 1)
+            # the coordinates of the range's two ends: lowest base and one past the highest
+            expect = (want[0], want[-1] + 1) if case.strand != -1 else (want[-1], want[0] + 1)
             if tuple(pair) != expect or tuple(method) != expect or not all(type(x) is int for x in pair):
                 raise Violation("convert_pair", {"range": [start, end], "got": [repr(x) for x in pair],
                                                  "method": list(map(int, method)), "want": list(expect)})
@@ -523,6 +560,7 @@ def check_domains(spec: dict) -> dict:
         generate_motif_features and hmmer.build_hits + HmmerResults.add_to_record """
     from antismash.common import hmmer, pfamdb
     from antismash.common.hmmscan_refinement import HMMResult
+    from antismash.common.secmet.features import CDSFeature
     from antismash.detection.nrps_pks_domains.domain_identification import (
         generate_domain_features, generate_motif_features)
     case = Case(spec)
@@ -542,17 +580,28 @@ def check_domains(spec: dict) -> dict:
     hits = [HMMResult(f"dom{i}", s, e, 1e-10, 50.0) for i, (s, e) in enumerate(unique)]
     state: dict = {}
 
+    # all hits in one call, the way the callers do it; if that raises, hit by hit so that the failure
+    # is attributed to the range that caused it
     def produce_domain(start: int, end: int):
         if "domains" not in state:
-            state["domains"] = generate_domain_features(cds, hits)
-        feature = state["domains"][hits[by_range[(start, end)]]]
+            try:
+                state["domains"] = generate_domain_features(cds, hits)
+            except Exception:  # pylint: disable=broad-except
+                state["domains"] = None
+        hit = hits[by_range[(start, end)]]
+        found = state["domains"] if state["domains"] is not None else generate_domain_features(cds, [hit])
+        feature = found[hit]
         _check_protein_location(feature, start, end, "domain")
         return feature.location, feature.translation
 
     def produce_motif(start: int, end: int):
         if "motifs" not in state:
-            state["motifs"] = generate_motif_features(cds, hits)
-        feature = state["motifs"][by_range[(start, end)]]
+            try:
+                state["motifs"] = generate_motif_features(cds, hits)
+            except Exception:  # pylint: disable=broad-except
+                state["motifs"] = None
+        index = by_range[(start, end)]
+        feature = state["motifs"][index] if state["motifs"] is not None else generate_motif_features(cds, [hits[index]])[0]
         _check_protein_location(feature, start, end, "motif")
         return feature.location, feature.translation
 
@@ -569,22 +618,37 @@ def check_domains(spec: dict) -> dict:
                               query_end=end, hit_id=f"prof{index}", hit_description="verif profile")
         results.append(SimpleNamespace(id=f"label{index}", hsps=[hsp]))
 
+    def add_hits(which: list, tool: str) -> list:
+        built = hmmer.build_hits(case.record, which, 10.0, 1e-3, database)
+        if len(built) != len(which):
+            raise Violation("pfam_hits_lost", {"built": len(built), "want": len(which)})
+        hmmer.HmmerResults(case.record.id, 1e-3, 10.0, database, tool, built).add_to_record(case.record)
+        return built
+
     def produce_pfam(start: int, end: int):
-        if "pfams" not in state:
-            built = hmmer.build_hits(case.record, results, 10.0, 1e-3, database)
-            state["hits"] = built
-            if len(built) != len(unique):
-                raise Violation("pfam_hits_lost", {"built": len(built), "want": len(unique)})
-            hmmer.HmmerResults(case.record.id, 1e-3, 10.0, database, "verifhmmer", built).add_to_record(case.record)
-            state["pfams"] = list(case.record.get_pfam_domains())
-            if len(state["pfams"]) != len(unique):
-                raise Violation("pfam_hits_lost", {"features": len(state["pfams"]), "want": len(unique)})
         index = by_range[(start, end)]
-        feature = [f for f in state["pfams"] if f.identifier == f"PF{index:05d}"]
+        if "hits" not in state:
+            try:
+                state["hits"] = add_hits(results, "verifhmmer")
+            except Violation:
+                raise
+            except Exception:  # pylint: disable=broad-except
+                state["hits"] = None
+                # a failed batch may have added some domains already: start again on a fresh record
+                state["record"] = make_record(spec["L"], spec["circular"], case.sequence)
+                state["record"].add_cds_feature(CDSFeature.from_biopython(cds.to_biopython()[0], record=state["record"]))
+        if state["hits"] is not None:
+            hit = state["hits"][index]
+            record = case.record
+        else:
+            record = state["record"]
+            built = hmmer.build_hits(record, [results[index]], 10.0, 1e-3, database)
+            hmmer.HmmerResults(record.id, 1e-3, 10.0, database, f"verifhmmer{index}", built).add_to_record(record)
+            hit = built[0]
+        feature = [f for f in record.get_pfam_domains() if f.identifier == f"PF{index:05d}"]
         if len(feature) != 1:
             raise Violation("pfam_hits_lost", {"identifier": f"PF{index:05d}", "found": len(feature)})
         _check_protein_location(feature[0], start, end, "pfam")
-        hit = state["hits"][index]
         if hit.location != str(feature[0].location):
             raise Violation("pfam_location_text", {"hit": hit.location, "feature": str(feature[0].location)})
         return feature[0].location, feature[0].translation
@@ -638,7 +702,10 @@ def check_tta(spec: dict) -> dict:
         except Exception as err:  # pylint: disable=broad-except
             detail = _exc_detail(err)
             detail["codon"] = index
-            failures.append({"clause": "exception", "detail": detail, "explained": False})
+            # start + offset arithmetic on a multi-part gene can run off the front of the record
+            negative = (case.multi and min(_linear_marker(case, 3 * index)) < 0 and detail["exception"] == "ValueError"
+                        and "negative coordinate" in detail["message"])
+            failures.append({"clause": "exception", "detail": detail, "explained": negative})
             continue
         if marker is None:
             # no annotation placed: nothing for the statement to constrain when a single 3-base marker
@@ -712,12 +779,15 @@ def _check_detect(case: Case, detect) -> tuple:
         raise AssertionError("harness: the gene is not inside the region")
     options = SimpleNamespace(tta_threshold=0.0)
     failures = []
+    codons = len(case.order) // 3
+    in_frame = [i for i in range(codons) if case.coding[3 * i:3 * i + 3] == "TTA"]
     try:
         found = detect(record, options)
     except Exception as err:  # pylint: disable=broad-except
-        return [{"clause": "detect_exception", "detail": _exc_detail(err), "explained": False}], 0
-    codons = len(case.order) // 3
-    in_frame = [i for i in range(codons) if case.coding[3 * i:3 * i + 3] == "TTA"]
+        detail = _exc_detail(err)
+        negative = (case.multi and detail["exception"] == "ValueError" and "negative coordinate" in detail["message"]
+                    and any(min(_linear_marker(case, 3 * i)) < 0 for i in in_frame))
+        return [{"clause": "detect_exception", "detail": detail, "explained": negative}], len(in_frame)
     # the statement constrains the markers that exist: each must be an in-frame TTA codon of the gene
     # (whether every TTA codon gets a marker is not part of it; the count is only recorded)
     for feature in found.features:
@@ -755,6 +825,16 @@ def _sig_span(sub, spec, clause, detail) -> bool:
             and detail.get("all_explained_by") == "span_coordinate_order")
 
 
+def _sig_overlap(sub, spec, clause, detail) -> bool:
+    """ two exons of the gene overlap AND every failing range begins or ends on an overlap base AND the
+        failure is a location of the wrong length (or Feature() refusing the right one: two parts, one end) """
+    parts = spec["loc"]["parts"]
+    overlapping = any(a is not b and max(a[0], b[0]) < min(a[1], b[1]) for a in parts for b in parts)
+    return (overlapping and not gen.is_span(spec["loc"]) and clause.endswith("_overlap_boundary")
+            and detail.get("all_explained_by") == "overlap_boundary"
+            and detail.get("first_clause") in ("length", "exception"))
+
+
 def _sig_tta(sub, spec, clause, detail) -> bool:
     """ gene with more than one part AND every misplaced marker sits at location.start+offset / end-offset-3 """
     return (sub in ("tta", "tta_enum") and len(spec["loc"]["parts"]) > 1
@@ -779,6 +859,7 @@ def _sig_prepeptide_shifted(sub, spec, clause, detail) -> bool:
 SIGNATURES = {
     "span_coordinate_order": _sig_span,
     "tta_linear_offset": _sig_tta,
+    "overlap_boundary": _sig_overlap,
     "prepeptide_stop_codon_appended": _sig_prepeptide_appended,
     "prepeptide_stop_codon_shifted": _sig_prepeptide_shifted,
 }
@@ -816,7 +897,7 @@ def layout(exons: list, introns: list, strand: int, length: int, start: int) -> 
 
 @st.composite
 def gene_specs(draw, max_codons: int = 40, sampled_ranges: bool = False, allow_span: bool = True,
-               tta: bool = False) -> dict:
+               tta: bool = False, allow_slip: bool = True) -> dict:
     circular = draw(st.booleans())
     strand = draw(st.sampled_from([1, -1]))
     codon_start = draw(st.sampled_from([1, 1, 1, 2, 3]))
@@ -846,7 +927,13 @@ def gene_specs(draw, max_codons: int = 40, sampled_ranges: bool = False, allow_s
     edges = [0] + sorted(cuts) + [total]
     exons = [b - a for a, b in zip(edges, edges[1:])]
     introns = [draw(st.one_of(st.sampled_from([1, 1, 2, 3, 4, 0]), st.integers(1, 60))) for _ in exons[1:]]
-    # two exons must not share an end, and exons joined by an empty intron are fine but rare
+    # exons joined by an empty intron are fine but rare; so are exons that overlap by 1-2 bases (the way
+    # programmed frameshifts are annotated), kept away from the first and the last two codons
+    if allow_slip and not span and len(exons) > 1 and draw(st.integers(0, 5)) == 0:
+        junction = draw(st.integers(0, len(exons) - 2))
+        offset = edges[junction + 1]
+        if exons[junction] >= 4 and exons[junction + 1] >= 4 and lead + 4 <= offset <= total - 7:
+            introns[junction] = -draw(st.integers(1, 2))
     extent = total + sum(introns)
     length = extent + draw(st.one_of(st.sampled_from([0, 1, 2, 3]), st.integers(0, 300)))
     span = span and extent >= 2
@@ -910,6 +997,9 @@ def prepeptide_specs(draw) -> dict:
     spec = draw(gene_specs(max_codons=60))
     spec = dict(spec)
     spec.pop("ranges")
+    parts = spec["loc"]["parts"]
+    if any(a is not b and max(a[0], b[0]) < min(a[1], b[1]) for a in parts for b in parts):
+        spec["stop"] = False   # keeps the two prepeptide findings' input classes disjoint
     spec["leader"] = draw(st.one_of(st.just(0), st.integers(0, 30)))
     spec["tail"] = draw(st.one_of(st.just(0), st.integers(0, 12)))
     return spec
